@@ -207,9 +207,11 @@ Definition g_unplan_vehicle (gi : ginput) (s : state) (v : nat) : state * result
   let inp := gi_inp gi in
   let old := get_route s v in
   let old_stops := route_stops old in
-  (* SolutionStops() includes first and last; IsFixed is false for them *)
+  (* SolutionStops() includes first and last, which are dropped below; since fix cf54f08 of the
+     un-plan of a vehicle a stop is left on the vehicle when its stops unit is fixed
+     (one of the unit's stops carries the flag), not only when the stop itself is *)
   let removable := filter (fun x => negb (stop_fixed gi x)) old_stops in
-  let inner := filter (fun x => is_input_stop inp x) removable in
+  let inner := filter (fun x => is_input_stop inp x && negb (unit_fixed gi (unit_of_stop inp x))) removable in
   match inner with
   | [] => (s, NotExecutable)
   | _ =>
